@@ -131,6 +131,15 @@ Definition q_common_ancestor (c o : ctx) : option rt :=
 Definition tree_height (f : forest) : nat :=
   match f with [] => 0 | _ => S (list_max (map height f)) end.
 
+(* Tree-level accessors (tree.py): children / get_toplevel_nodes, first_child, last_child, count = len(tree),
+   and count_descendants of the system root *)
+Definition tr_children (f : forest) : list rt := f.
+Definition tr_first_child (f : forest) : option rt := hd_error f.
+Definition tr_last_child (f : forest) : option rt := last_error f.
+Definition tr_count (f : forest) : nat := length (pre_f f).
+Definition tr_count_desc (f : forest) (leaves_only : bool) : nat :=
+  length (filter (fun t => if leaves_only then match rch t with [] => true | _ => false end else true) (pre_f f)).
+
 (* ------------------------------------------------------------------ *)
 (* typed_tree.py: kind-aware queries.  [k = None] is ANY_KIND           *)
 (* ------------------------------------------------------------------ *)
